@@ -57,9 +57,18 @@ inductive Err
   | child (l : Nat)           -- "subprocess for <layer>"
   deriving DecidableEq, Repr
 
+/-- ghost: what `setup_layers` held when an event was emitted, and (for test events) the layer whose
+tests are running.  Never read by the model itself; the theorems of C01 are stated about it and the
+correspondence compares it with the real `setup_layers` dict found on the Python stack. -/
+structure Snap where
+  setup : List Nat
+  layer : Option Nat := none
+  deriving DecidableEq, Repr
+
 structure PS where
   setup : List Nat := []            -- `setup_layers`, insertion order
   trace : List Ev := []             -- oldest first
+  glog : List (Ev × Snap) := []     -- ghost: the trace, each event with its snapshot
   ran : Nat := 0
   failures : List Nat := []         -- test ids (failures and unexpected successes)
   errors : List Err := []
@@ -67,7 +76,8 @@ structure PS where
   aborted : Bool := false
   interrupted : Bool := false
 
-def PS.emit (s : PS) (e : Ev) : PS := { s with trace := s.trace ++ [e] }
+def PS.emit (s : PS) (e : Ev) : PS :=
+  { s with trace := s.trace ++ [e], glog := s.glog ++ [(e, { setup := s.setup })] }
 
 def countSetUp (l : Nat) : List Ev → Nat
   | [] => 0
@@ -99,6 +109,13 @@ def tearDownUnneeded (w : World) (needed : List Nat) (optional : Bool) (s : PS) 
   let order := (orderByBases w.graph unneeded).reverse
   tearDownList w optional order s
 
+/-- the loop `for base in layer.__bases__: setup_layer(base)`; stops at the first failure -/
+def setupBases (f : Nat → PS → PS × Bool) : List Nat → PS → PS × Bool
+  | [], s => (s, true)
+  | b :: bs, s =>
+    let r := f b s
+    if r.2 then setupBases f bs r.1 else r
+
 /-- `setup_layer`: bases first, mark after `setUp` returned.  Returns `false` when a `setUp` raised.
 Fuel makes the recursion structural (`l + 1` suffices for well-formed graphs). -/
 def setupLayerF (w : World) : Nat → Nat → PS → PS × Bool
@@ -106,12 +123,7 @@ def setupLayerF (w : World) : Nat → Nat → PS → PS × Bool
   | f + 1, l, s =>
     if s.setup.contains l then (s, true)
     else
-      let rec bases : List Nat → PS → PS × Bool
-        | [], s => (s, true)
-        | b :: bs, s =>
-          let r := setupLayerF w f b s
-          if r.2 then bases bs r.1 else r
-      let r := bases (w.graph.bases l) s
+      let r := setupBases (setupLayerF w f) (w.graph.bases l) s
       if !r.2 then r
       else
         let s := r.1
@@ -136,7 +148,9 @@ def runIterations (w : World) (o : Opts) (l : Nat) (tests : List TestDef) : Nat 
   | n + 1, s =>
     let c := resultCfg w o l
     let r := runTests c tests {}
-    let s := { s with trace := s.trace ++ r.evs.map Ev.test }
+    let s := { s with
+      trace := s.trace ++ r.evs.map Ev.test
+      glog := s.glog ++ r.evs.map (fun e => (Ev.test e, ({ setup := s.setup, layer := some l } : Snap))) }
     if r.aborted then { s with aborted := true }
     else if r.interrupted then { s with interrupted := true }
     else
